@@ -92,3 +92,21 @@ Theorem C05_decoded_packet_timestamps :
               (has_tse d = true -> map k_tse K = stamps_of 1 (w_log w)).
 Proof. exact history_stamps. Qed.
 Print Assumptions C05_decoded_packet_timestamps.
+
+(* the same with the premises reduced to: well-formed type, every buffer holds the packet header and
+   context, well-typed sized arguments, first packet opened (Tracer/NoError.v) *)
+From BT.Tracer Require Import NoError.
+Theorem C05_decoded_packet_timestamps_full :
+  forall d user cs_size, wf_d d user cs_size ->
+  forall buf oracle h,
+    fits cs_size (8 * buf) -> or_ok cs_size oracle -> bufs_ok d user buf oracle -> Forall (call_okf d) h ->
+    let w0 := mk_w (init_ctx buf) oracle 0%Z [] false user in
+    let w1 := step d w0 COpen in
+    c_open (w_c w1) = true ->
+    let w := run d buf user oracle (COpen :: h) in
+    c_open (w_c w) = false ->
+    exists K, Forall2 (pkt_ok d user) (pkts (obs (w_log w))) K /\
+              (has_tsb d = true -> map k_tsb K = stamps_of 0 (w_log w)) /\
+              (has_tse d = true -> map k_tse K = stamps_of 1 (w_log w)).
+Proof. exact history_stamps_full. Qed.
+Print Assumptions C05_decoded_packet_timestamps_full.
